@@ -1,5 +1,6 @@
 (* C11 — gRPC transparency: remote state == wrapped state; server never crashes. Statements only. *)
 From Verif Require Import Grpc GrpcProofs.
+From Verif Require Import Store GrpcOps GrpcOpsProofs.
 
 (* for every RPC and every error class its wrapped operation can produce, pushing the error through the server's
    status mapping and the client's class mapping gives back the same class *)
@@ -22,3 +23,36 @@ Theorem C11_phase_on_teardown_degrades :
   client_map RTeardownAndDestroy (server_map RTeardownAndDestroy KPhase) = KConflict.
 Proof. exact phase_on_teardown_degrades. Qed.
 Print Assumptions C11_phase_on_teardown_degrades.
+
+(* ---- the unary RPCs end to end (GrpcOps.v) ---------------------------------------------------------------------------
+   for every resource codec that round-trips (C18), every operation with every owner and expected-phase option, every
+   resource and every state of the wrapped store: client request -> server handler -> wrapped state -> response ->
+   client gives the same new state and the same caller-visible outcome as the direct call: the same error class, the
+   same version / update time / owner written back into the caller's object, the same object returned by Get *)
+Theorem C11_remote_transparent : forall (wire : Type) (enc : res -> wire) (dec : wire -> option res),
+  (forall r, dec (enc r) = Some r) ->
+  forall now o s,
+  (match o with OpList _ _ => False | _ => True end) ->
+  remote_call wire enc dec now o s = Some (apply_st now o s, direct_outcome (apply_res now o s)).
+Proof. exact remote_transparent. Qed.
+Print Assumptions C11_remote_transparent.
+
+(* whole operation histories *)
+Theorem C11_remote_history_transparent : forall (wire : Type) (enc : res -> wire) (dec : wire -> option res),
+  (forall r, dec (enc r) = Some r) ->
+  forall ops s,
+  Forall (fun no => match snd no with OpList _ _ => False | _ => True end) ops ->
+  run_remote wire enc dec ops s = Some (run_direct ops s).
+Proof. exact remote_history_transparent. Qed.
+Print Assumptions C11_remote_history_transparent.
+
+(* malformed requests (undecodable resource, unparsable expected phase) get an error status and change nothing *)
+Theorem C11_malformed_request_rejected : forall (wire : Type) (enc : res -> wire) (dec : wire -> option res) now q s,
+  (match q with
+   | WCreate w _ => dec w = None
+   | WUpdate w _ e => dec w = None \/ server_exp e = None
+   | _ => False
+   end) ->
+  server_handle wire enc dec now q s = (s, WStatus CUnknown).
+Proof. exact malformed_request_rejected. Qed.
+Print Assumptions C11_malformed_request_rejected.
